@@ -1537,3 +1537,218 @@ Proof.
 Qed.
 
 End Erase.
+
+(** ** The parser's stream for a JSON text, and the theorem *)
+
+Definition nc2 (p : pair) : bool := negb (ttype_eqb (fst p) TComment).
+
+Lemma filter_pairs l : map ptyl (filter not_comment l) = filter nc2 (map ptyl l).
+Proof.
+  induction l as [|t l IH]; [reflexivity|]. cbn [filter map]. unfold not_comment at 1, nc2 at 1.
+  cbn [ptyl fst]. destruct (negb (ttype_eqb (pty t) TComment)); cbn [map]; now rewrite IH.
+Qed.
+
+Lemma sbody_pairs raw :
+  map ptyl (sbody (parser_stream raw)) = filter nc2 (map kw2 (semi2 false (map tyl raw))).
+Proof.
+  unfold parser_stream, filtered. pose proof (with_cum_pairs raw []) as Hc.
+  destruct (with_cum [] raw) as [ps fn]. cbn [fst] in Hc. cbn [sbody].
+  now rewrite filter_pairs, keyword_pairs, semi_ins_pairs, Hc.
+Qed.
+
+Lemma semi2_ws_end w :
+  semi2 true (map tyl (wtoks w)) = [(TSemi, if has_nl w then [10] else [])].
+Proof.
+  induction w as [|c w IH]; [reflexivity|]. cbn [wtoks flat_map has_nl existsb]. fold (wtoks w) (has_nl w).
+  destruct (c =? 10); cbn [app map orb].
+  - cbn [semi2 tyl tk fst tty]. pose proof (semi2_ws_false w []) as E. rewrite app_nil_r in E.
+    now rewrite E.
+  - exact IH.
+Qed.
+
+Lemma FT_nc : forall t, filter nc2 (FT t) = FT t.
+Proof.
+  assert (Hsem : forall w, filter nc2 (semis w) = semis w) by (intros w; unfold semis; destruct (has_nl w); reflexivity).
+  induction t as [|b|u|body|w|f m IHf IHm|w|f m IHf IHm] using jt_ind'; try reflexivity.
+  - cbn [FT]. destruct u as [|c r].
+    + unfold num_ft. destruct (num_is_float []); reflexivity.
+    + destruct (N.eqb_spec c 45) as [->|Hc].
+      * change (num_ft (45 :: r)) with [(TOperator, [45]); (if num_is_float r then TFloat else TInt, r)].
+        destruct (num_is_float r); reflexivity.
+      * rewrite (num_ft_other c r Hc). destruct (num_is_float (c :: r)); reflexivity.
+  - rewrite FT_arr. cbn [filter nc2 fst ttype_eqb negb].
+    assert (Hi : forall i, filter nc2 (FT (snd (fst i))) = FT (snd (fst i)) -> filter nc2 (it_ft i) = it_ft i).
+    { intros [[w1 v] w2] Hv. cbn [it_ft fst snd] in *. now rewrite filter_app, Hv, Hsem. }
+    f_equal. rewrite !filter_app, (Hi f IHf). f_equal. f_equal.
+    induction IHm as [|i m' Hi' Hm' IHm']; [reflexivity|]. cbn [flat_map]. rewrite filter_app.
+    change (filter nc2 ((TOperator, [44]) :: it_ft i)) with ((TOperator, [44]) :: filter nc2 (it_ft i)).
+    rewrite (Hi i Hi'), IHm'. reflexivity.
+  - rewrite FT_obj. cbn [filter nc2 fst ttype_eqb negb].
+    assert (Hi : forall i, filter nc2 (FT (snd (fst i))) = FT (snd (fst i)) -> filter nc2 (mt_ft i) = mt_ft i).
+    { intros [[[[[w1 k] w2] w3] v] w4] Hv. cbn [mt_ft fst snd] in *.
+      cbn [filter nc2 fst ttype_eqb negb]. f_equal. rewrite filter_app, Hsem. f_equal.
+      cbn [filter nc2 fst ttype_eqb negb]. f_equal. now rewrite filter_app, Hv, Hsem. }
+    f_equal. rewrite !filter_app, (Hi f IHf). f_equal. f_equal.
+    induction IHm as [|i m' Hi' Hm' IHm']; [reflexivity|]. cbn [flat_map]. rewrite filter_app.
+    change (filter nc2 ((TOperator, [44]) :: mt_ft i)) with ((TOperator, [44]) :: filter nc2 (mt_ft i)).
+    rewrite (Hi i Hi'), IHm'. reflexivity.
+Qed.
+
+Lemma erase_init s : erase (p_init s) = st_at [] (map (mkp []) (map ptyl (sbody s))).
+Proof.
+  unfold p_init, p_next, erase. cbn [rest]. destruct (sbody s) as [|t r]; [reflexivity|].
+  cbn [cur rest perrs jail fin st_at map]. f_equal. now rewrite map_map.
+Qed.
+
+(** The raw tokens of a JSON text. *)
+Lemma json_text_tokens input j :
+  json_parse input = Some j ->
+  exists w t w', all_ws w /\ wft t /\ all_ws w' /\ input = w ++ core t ++ w' /\ jval t = j /\
+    jsonx_raw_tokens input = Ok (wtoks w ++ rtj t ++ wtoks w').
+Proof.
+  unfold json_parse. destruct (jparse (S (length input)) input) as [[j0 rest]|] eqn:E; [|discriminate].
+  destruct (skip_ws_split rest) as (w' & Hw' & Hr & _).
+  destruct (skip_ws rest); [|discriminate]. intros H. injection H as <-. rewrite app_nil_r in Hr. subst rest.
+  destruct (proj1 (jparse_inv _) _ _ _ E) as (w & t & Hw & Ht & Hi & Hj).
+  exists w, t, w'. repeat split; auto. apply L_raw. rewrite Hi.
+  apply L_ws; [exact Hw|]. apply lex_tree; [exact Ht| |].
+  - destruct w' as [|c r]; [exact I|]. cbn. left. unfold all_ws in Hw'. cbn [forallb] in Hw'.
+    now apply andb_true_iff in Hw' as [Hc _].
+  - pose proof (L_ws w' [] [] Hw' L_nil) as H. now rewrite !app_nil_r in H.
+Qed.
+
+Section Final.
+Context {F : Type}.
+Variable pf : list N -> option F.
+Variable ff : F -> list N.
+Hypothesis ff_json : forall f, is_json_number (ff f) = true.
+Hypothesis ff_unsigned : forall f r, ff f <> 45 :: r.
+
+Lemma forallb_app_l {A} (p : A -> bool) a b : forallb p (a ++ b) = true -> forallb p a = true.
+Proof. rewrite forallb_app. intros H. now apply andb_true_iff in H as [H _]. Qed.
+Lemma forallb_app_r {A} (p : A -> bool) a b : forallb p (a ++ b) = true -> forallb p b = true.
+Proof. rewrite forallb_app. intros H. now apply andb_true_iff in H as [_ H]. Qed.
+
+Lemma str_denotes body : str_ok body -> go_unquote (34 :: body) <> None ->
+  forallb valid_rune body = true -> utf8_decode (unq (34 :: body)) = str_val body.
+Proof.
+  intros [v Hv] Hu Hr. unfold unq, str_val. rewrite Hv.
+  destruct (go_unquote (34 :: body)) as [bs|] eqn:E; [|contradiction].
+  exact (plain_json_strings_agree body v bs Hr Hv E).
+Qed.
+
+(** The tree the parser builds denotes the value the reference parser read. *)
+Theorem tree_denotes : forall t, wft t -> okj pf t -> forallb valid_rune (core t) = true ->
+  jrel pf ff (jval t) (denote ff (astj pf t)).
+Proof.
+  induction t as [|b|u|body|w|f m IHf IHm|w|f m IHf IHm] using jt_ind'; intros Hw Hok Hv.
+  - constructor.
+  - constructor.
+  - cbn [wft okj astj jval] in *.
+    exact (proj2 (num_ast_ok pf ff (fun _ => true) u Hw Hok)).
+  - cbn [wft okj astj jval denote core] in *. cbn [forallb] in Hv. apply andb_true_iff in Hv as [_ Hv].
+    rewrite (str_denotes body Hw Hok Hv). constructor.
+  - constructor. constructor.
+  - (* array *)
+    apply wft_arr in Hw as [Hwf Hwm]. apply okj_arr in Hok as [Hof Hom]. rewrite core_arr in Hv.
+    cbn [forallb] in Hv. apply andb_true_iff in Hv as [_ Hv].
+    assert (Hi : forall i, it_ok i -> it_okj (okj pf) i -> forallb valid_rune (it_text i) = true ->
+              (wft (snd (fst i)) -> okj pf (snd (fst i)) -> forallb valid_rune (core (snd (fst i))) = true ->
+               jrel pf ff (jval (snd (fst i))) (denote ff (astj pf (snd (fst i))))) ->
+              jrel pf ff (it_val i) (denote ff (astj pf (snd (fst i))))).
+    { intros [[w1 v] w2] (_ & Hwv & _) (Hov & _) Hvi IHv. cbn [it_text it_val fst snd] in *.
+      apply IHv; auto. now apply forallb_app_r, forallb_app_l in Hvi. }
+    rewrite jval_arr. cbn [astj denote map]. constructor. constructor.
+    + apply Hi; auto. now apply forallb_app_l in Hv.
+    + apply forallb_app_r, forallb_app_l in Hv. rewrite map_map.
+      clear IHf Hwf Hof. induction IHm as [|i m' Hi' Hm' IHm']; [constructor|].
+      inversion Hwm; inversion Hom; subst. cbn [flat_map forallb] in Hv.
+      apply andb_true_iff in Hv as [_ Hv]. cbn [map]. constructor.
+      * apply Hi; auto. now apply forallb_app_l in Hv.
+      * apply IHm'; auto. now apply forallb_app_r in Hv.
+  - constructor. constructor.
+  - (* object *)
+    apply wft_obj in Hw as [Hwf Hwm]. apply okj_obj in Hok as [Hof Hom]. rewrite core_obj in Hv.
+    cbn [forallb] in Hv. apply andb_true_iff in Hv as [_ Hv].
+    assert (Hi : forall i, mt_ok i -> mt_okj (okj pf) i -> forallb valid_rune (mt_text i) = true ->
+              (wft (snd (fst i)) -> okj pf (snd (fst i)) -> forallb valid_rune (core (snd (fst i))) = true ->
+               jrel pf ff (jval (snd (fst i))) (denote ff (astj pf (snd (fst i))))) ->
+              fst (mt_val i) = fst (let '(k, x) := mem_ast (astj pf) i in (denote_key k, denote ff x)) /\
+              jrel pf ff (snd (mt_val i)) (snd (let '(k, x) := mem_ast (astj pf) i in (denote_key k, denote ff x)))).
+    { intros [[[[[w1 k] w2] w3] v] w4] (_ & Hk & _ & _ & Hwv & _) (Huk & _ & Hov & _) Hvi IHv.
+      cbn [mt_text mt_val mem_ast fst snd denote_key] in *.
+      apply forallb_app_r in Hvi. cbn [forallb] in Hvi. apply andb_true_iff in Hvi as [_ Hvi].
+      split.
+      - symmetry. apply str_denotes; auto. now apply forallb_app_l in Hvi.
+      - apply IHv; auto. apply forallb_app_r, forallb_app_r in Hvi. cbn [forallb] in Hvi.
+        apply andb_true_iff in Hvi as [_ Hvi]. now apply forallb_app_r, forallb_app_l in Hvi. }
+    rewrite jval_obj, astj_obj. cbn [denote map]. constructor. constructor.
+    + apply Hi; auto. now apply forallb_app_l in Hv.
+    + apply forallb_app_r, forallb_app_l in Hv. rewrite map_map.
+      clear IHf Hwf Hof. induction IHm as [|i m' Hi' Hm' IHm']; [constructor|].
+      inversion Hwm; inversion Hom; subst. cbn [flat_map forallb] in Hv.
+      apply andb_true_iff in Hv as [_ Hv]. cbn [map]. constructor.
+      * apply Hi; auto. now apply forallb_app_l in Hv.
+      * apply IHm'; auto. now apply forallb_app_r in Hv.
+Qed.
+
+(** Plain JSON: what ToJSON accepts it converts to the same value. *)
+Theorem plain_json_same input j out errs :
+  forallb valid_rune input = true ->
+  json_parse input = Some j -> to_json pf ff input = Ok (Some out, errs) ->
+  errs = [] /\ exists j', json_parse out = Some j' /\ jrel pf ff j j'.
+Proof.
+  intros Hvr Hj Ht.
+  destruct (json_text_tokens input j Hj) as (w & t & w' & Hw & Hwt & Hw' & Hin & Hjv & Hraw).
+  unfold to_json, jsonx_stream in Ht. rewrite Hraw in Ht.
+  set (raw := wtoks w ++ rtj t ++ wtoks w') in *.
+  destruct (to_json_stream pf ff (parser_stream raw)) as [r|] eqn:Es; [|discriminate].
+  injection Ht as ->. unfold to_json_stream in Es.
+  destruct (parse_value pf _ (p_init (parser_stream raw))) as [[v st1]|] eqn:Ep; [|discriminate].
+  destruct (p_errs st1) eqn:Ee; [|discriminate]. unfold marshal_value in Es.
+  destruct (encode_value ff v) as [o|] eqn:Eenc; [|discriminate]. injection Es as <- <-.
+  split; [reflexivity|].
+  (* the run, with the lexer error lists erased *)
+  pose proof (proj1 (parse_all_erase pf (parse_fuel (p_init (parser_stream raw)))) (p_init (parser_stream raw))) as Her.
+  rewrite Ep in Her. cbn [eres] in Her. rewrite erase_init, sbody_pairs in Her.
+  assert (Epairs : filter nc2 (map kw2 (semi2 false (map tyl raw)))
+                   = FT t ++ [(TSemi, if has_nl w' then [10] else [])]).
+  { subst raw. rewrite !map_app, semi2_ws_false, (filter_tree t false (map tyl (wtoks w'))).
+    rewrite semi2_ws_end. cbn [map kw2 fst]. rewrite filter_app, FT_nc. reflexivity. }
+  rewrite Epairs, map_app in Her.
+  assert (He1 : perrs (erase st1) = []).
+  { cbn [erase perrs]. unfold p_errs in Ee. destruct (pcum (cur st1)); [exact Ee|discriminate]. }
+  destruct (parse_json_tree pf [] t _ _ _ _ Her He1) as (-> & _ & Hok).
+  exists (denote ff (astj pf t)). split.
+  - exact (encode_json_parse ff ff_json ff_unsigned _ _ Eenc).
+  - rewrite <- Hjv. apply tree_denotes; auto.
+    rewrite Hin in Hvr. now apply forallb_app_r, forallb_app_l in Hvr.
+Qed.
+
+(** ... and what it takes for a plain JSON text to be accepted at all. *)
+Theorem plain_json_accepted input j out errs :
+  json_parse input = Some j -> to_json pf ff input = Ok (Some out, errs) ->
+  exists w t w', input = w ++ core t ++ w' /\ jval t = j /\ okj pf t.
+Proof.
+  intros Hj Ht.
+  destruct (json_text_tokens input j Hj) as (w & t & w' & Hw & Hwt & Hw' & Hin & Hjv & Hraw).
+  unfold to_json, jsonx_stream in Ht. rewrite Hraw in Ht.
+  set (raw := wtoks w ++ rtj t ++ wtoks w') in *.
+  destruct (to_json_stream pf ff (parser_stream raw)) as [r|] eqn:Es; [|discriminate].
+  injection Ht as ->. unfold to_json_stream in Es.
+  destruct (parse_value pf _ (p_init (parser_stream raw))) as [[v st1]|] eqn:Ep; [|discriminate].
+  destruct (p_errs st1) eqn:Ee; [|discriminate].
+  pose proof (proj1 (parse_all_erase pf (parse_fuel (p_init (parser_stream raw)))) (p_init (parser_stream raw))) as Her.
+  rewrite Ep in Her. cbn [eres] in Her. rewrite erase_init, sbody_pairs in Her.
+  assert (Epairs : filter nc2 (map kw2 (semi2 false (map tyl raw)))
+                   = FT t ++ [(TSemi, if has_nl w' then [10] else [])]).
+  { subst raw. rewrite !map_app, semi2_ws_false, (filter_tree t false (map tyl (wtoks w'))).
+    rewrite semi2_ws_end. cbn [map kw2 fst]. rewrite filter_app, FT_nc. reflexivity. }
+  rewrite Epairs, map_app in Her.
+  assert (He1 : perrs (erase st1) = []).
+  { cbn [erase perrs]. unfold p_errs in Ee. destruct (pcum (cur st1)); [exact Ee|discriminate]. }
+  destruct (parse_json_tree pf [] t _ _ _ _ Her He1) as (_ & _ & Hok).
+  exists w, t, w'. auto.
+Qed.
+
+End Final.
